@@ -126,6 +126,22 @@ impl Ctx {
             Stop::Foreign(f)
         }
     }
+    /// a finding of an observing monitor (decoder, statistics, iteration): stops the history only if the
+    /// running check owns it; otherwise it is counted as foreign and the history goes on
+    pub fn observe(&mut self, r: Result<(), Finding>) -> Result<(), Finding> {
+        match r {
+            Ok(()) => Ok(()),
+            Err(f) if self.owns(&f) => Err(f),
+            Err(f) => {
+                self.count("foreign_findings", 1);
+                self.count(&format!("foreign.{}", f.monitor), 1);
+                if self.foreign.len() < 5 {
+                    self.foreign.push(f);
+                }
+                Ok(())
+            }
+        }
+    }
     pub fn drain_notes(&mut self) {
         for (k, n) in hooks::take_notes() {
             *self.notes_seen.entry(k.to_string()).or_insert(0) += n;
@@ -527,11 +543,13 @@ impl<K: Kt> Session<K> {
                 }
             }
             Op::Iter(f, n) => {
-                self.iterate(at, *f, *n, ctx)?;
+                let r = self.iterate(at, *f, *n, false, ctx);
+                ctx.observe(r)?;
             }
             Op::Stats => {
                 // executed for its side effects / termination; figures are compared at sync points
-                self.stats_calls(at, None, ctx)?;
+                let r = self.stats_calls(at, None, ctx);
+                ctx.observe(r)?;
             }
         }
         if op.is_sync() {
@@ -542,7 +560,9 @@ impl<K: Kt> Session<K> {
             }
             if mon.iterate_at_sync {
                 for f in 0..ITER_FLAVOURS.len() {
-                    self.iterate(at, f, usize::MAX, ctx)?;
+                    // every second checkpoint: other read-only calls and a second iterator between the steps
+                    let r = self.iterate(at, f, usize::MAX, (at + f) % 2 == 0, ctx);
+                    ctx.observe(r)?;
                 }
             }
         }
@@ -616,7 +636,7 @@ impl<K: Kt> Session<K> {
 
     // ------------------------------------------------------------ C04: iteration monitor
 
-    pub fn iterate(&mut self, at: usize, flavour: usize, abandon_after: usize, ctx: &mut Ctx) -> Result<(), Finding> {
+    pub fn iterate(&mut self, at: usize, flavour: usize, abandon_after: usize, interleave: bool, ctx: &mut Ctx) -> Result<(), Finding> {
         let model = &self.model;
         let budget = self.budget;
         let map = self.map.as_ref().expect("open");
@@ -644,7 +664,40 @@ impl<K: Kt> Session<K> {
             let mut seen_keys: HashMap<Vec<u8>, ()> = HashMap::new();
             let mut vals: Vec<Vec<u8>> = Vec::new();
             let mut i = 0usize;
+            // the map is not modified during the traversal, but it may be *read*: between two steps the
+            // monitor issues len/get/includes_key through another handle and advances a second iterator
+            let mut other = map.clone();
+            let mut second = if interleave { Some(map.iter()) } else { None };
+            let probe: Vec<&Vec<u8>> = model.keys().take(3).collect();
             loop {
+                if interleave {
+                    match i % 4 {
+                        0 => {
+                            if other.len().map_err(|e| e.to_string())? != len_now as u64 {
+                                return Err(format!("{name}: len() called between two steps differs from the model"));
+                            }
+                        }
+                        1 => {
+                            if let Some(k) = probe.get(i % 3) {
+                                if other.get(&k[..]).map_err(|e| e.to_string())?.as_ref() != model.get(*k) {
+                                    return Err(format!("{name}: get() called between two steps returns a wrong value"));
+                                }
+                            }
+                        }
+                        2 => {
+                            let _ = other.includes_key(&b"certainly absent key \xff\x00"[..]).map_err(|e| e.to_string())?;
+                        }
+                        _ => {
+                            if let Some(it2) = second.as_mut() {
+                                if let Some((k2, v2)) = it2.next() {
+                                    if model.get(k2.as_bytes()) != Some(&v2) {
+                                        return Err(format!("{name}: a second iterator advanced alternately yields a pair that is not live"));
+                                    }
+                                }
+                            }
+                        }
+                    }
+                }
                 let hint = match &it {
                     It::A(x) => x.size_hint(),
                     It::B(x) => x.size_hint(),
@@ -720,6 +773,9 @@ impl<K: Kt> Session<K> {
             Guard::Ok(Ok(n)) => {
                 ctx.count(&format!("traversal.{name}"), 1);
                 ctx.count("traversal.items", n);
+                if interleave {
+                    ctx.count("traversal.interleaved_with_reads", 1);
+                }
                 if abandon_after != usize::MAX {
                     ctx.count("traversal.abandoned", 1);
                 }
@@ -755,13 +811,13 @@ impl<K: Kt> Session<K> {
             ctx.nontrivial.insert(dg);
         }
         if let Some(p) = dec.structure_problems().first() {
-            return Err(finding(O_C05, "structure", at, format!("at {when}: {:?}: {}", p.group, p.what)));
+            ctx.observe(Err(finding(O_C05, "structure", at, format!("at {when}: {:?}: {}", p.group, p.what))))?;
         }
         if let Some(p) = dec.storage_problems().first() {
-            return Err(finding(O_C06, "storage", at, format!("at {when}: {:?}: {}", p.group, p.what)));
+            ctx.observe(Err(finding(O_C06, "storage", at, format!("at {when}: {:?}: {}", p.group, p.what))))?;
         }
         if let Some(m) = decoder::contents_mismatch(&img, &dec, &self.model) {
-            return Err(finding(O_C05, "contents", at, format!("at {when}: {m}")));
+            ctx.observe(Err(finding(O_C05, "contents", at, format!("at {when}: {m}"))))?;
         }
         // weak C06 bound, valid for every run: slots of one exact size never exceed peak live entries + 1
         // (a slot of some size is only created when every existing slot of that size is in use)
@@ -772,12 +828,14 @@ impl<K: Kt> Session<K> {
             }
             for (sz, c) in per {
                 if c > self.peak_live as u64 + 1 {
-                    return Err(finding(O_C06, "bound", at, format!("at {when}: {nm} file holds {c} slots of {sz} bytes but at most {} entries were ever live at once", self.peak_live)));
+                    ctx.observe(Err(finding(O_C06, "bound", at, format!("at {when}: {nm} file holds {c} slots of {sz} bytes but at most {} entries were ever live at once", self.peak_live))))?;
+                    break;
                 }
             }
         }
         if mon.stats_at_sync && self.map.is_some() {
-            self.stats_calls(at, Some((&img, &dec)), ctx)?;
+            let r = self.stats_calls(at, Some((&img, &dec)), ctx);
+            ctx.observe(r)?;
         }
         self.last_decoded = Some((img, dec));
         Ok(())
